@@ -1049,8 +1049,27 @@ fn process_fn(cx: &mut Ctx, vis: &Visibility, sig: &Signature, block: &Block, in
         cx.p.visit_block_mut(&mut b2);
         block = b2;
     }
+    // R-HOISTRET: tail expression `Ok(<struct literal>)`  ==>  `let v_ret = <struct literal>; Ok(v_ret)`
+    if cx.o.hoist.iter().any(|(f, m)| *f == name && m == "@ret") {
+        let n = block.stmts.len();
+        if n > 0 {
+            let mut new_tail: Option<(Stmt, Stmt)> = None;
+            if let Stmt::Expr(Expr::Call(c), None) = &block.stmts[n - 1] {
+                if norm(&c.func) == "Ok" && c.args.len() == 1 {
+                    let inner = &c.args[0];
+                    let s1: Stmt = parse_quote!( let v_ret = #inner; );
+                    let s2: Stmt = Stmt::Expr(parse_quote!( Ok(v_ret) ), None);
+                    new_tail = Some((s1, s2));
+                }
+            }
+            match new_tail {
+                Some((s1, s2)) => { block.stmts.pop(); block.stmts.push(s1); block.stmts.push(s2); cx.p.log.push(format!("R-HOISTRET fn {}", name)); }
+                None => cx.errors.push(format!("ANCHOR-LOST fn {} has no tail expression of the form Ok(..) to hoist", name)),
+            }
+        }
+    }
     for (f, method) in cx.o.hoist.iter() {
-        if *f != name { continue; }
+        if *f != name || method == "@ret" { continue; }
         let mut h = Hoister { method: method.as_str(), site: 0, log: vec![], errors: vec![] };
         h.visit_block_mut(&mut block);
         cx.p.log.extend(h.log);
